@@ -2,6 +2,8 @@ import BigtreeModel.Search
 import BigtreeProofs.Lemmas.Search
 import BigtreeProofs.Lemmas.SearchPaths
 import BigtreeProofs.Lemmas.SearchChecks
+import BigtreeProofs.Lemmas.SearchFullPath
+import BigtreeProofs.Lemmas.QueryIterBridge
 import BigtreeProofs.Lemmas.QueryExamples
 /-!
 # C09 — search returns exactly the nodes that satisfy the query
@@ -195,5 +197,50 @@ example : findRelativePaths exNamed ['/'] [0, 0] ['.', '.', '/', '.', '.', '/', 
 example : findRelativePaths exNamed ['/'] [0] ['.', '.', '/', '.', '.'] 0 0 = .error .search := rfl
 example : findRelativePaths exNamed ['/'] [] ['*', '/', 'a', 'b'] 0 0 = .ok [[2, 0]] := rfl
 example : findRelativePaths exNamed ['/'] [] ['c'] 0 0 = .error .search := rfl
+
+/-- the public `find_relative_paths` (query not starting with the separator): strip, split,
+    denotation of the components from the start node, then the count contract. -/
+theorem relative_paths_eq (R : Tree) (sep : Str) (a : Addr) (q : Str) (mn mx : Nat)
+    (hrel : startsWith q sep = false) :
+    findRelativePaths R sep a q mn mx =
+      match resolveSpec R ((lstrip sep (rstrip sep q)).contains '*')
+          (split sep (lstrip sep (rstrip sep q))) a with
+      | .error e => .error e
+      | .ok l =>
+        if (mn ≠ 0 ∧ l.length < mn) ∨ (mx ≠ 0 ∧ l.length > mx) then .error .search else .ok l :=
+  findRelativePaths_eq R sep a q mn mx hrel
+
+example : startsWith ['*', '/', '.', '.'] ['/'] = false
+    ∧ findRelativePaths exNamed ['/'] [] ['*', '/', '.', '.'] 0 2 = .error .search
+    ∧ findRelativePaths exNamed ['/'] [] ['*', '/', '.', '.'] 3 3 = .ok [[], [], []] := ⟨rfl, rfl, rfl⟩
+
+/-- looking up a node's own `path_name` from anywhere in the tree finds that node (non-empty,
+    separator-free, sibling-unique names). -/
+theorem find_full_path_path_name (R : Tree) (s : Char) (a v : Addr)
+    (hsep : ∀ (x : Addr) (t : Tree), sub R x = some t → s ∉ t.name)
+    (hne : ∀ (x : Addr) (t : Tree), sub R x = some t → t.name ≠ [])
+    (hu : SibUnique R) (hv : (sub R v).isSome) :
+    findFullPath R [s] a (pathName R [s] v) = .ok (some v) :=
+  findFullPath_pathName s a v hsep hne hu hv
+
+example : (∀ (x : Addr) (t : Tree), sub exNamed x = some t → t.name ≠ []) :=
+  fun x t h => by
+    have := allSub_sub (fun t => !t.name.isEmpty) x exNamed t (by decide) h
+    intro e; simp [e] at this
+example : pathName exNamed ['/'] [2, 0] = ['/', 'a', '/', 'b', 'a', '/', 'a', 'b'] := by decide
+
+/-- the located pre-order behind `findall`, `descendants`, `leaves` is C04's model of
+    `preorder_iter` (no stop condition): same node identities in the same order, whenever the
+    condition is a function of the node's identity. -/
+theorem preorder_is_iter_preorder (R : Tree) (filt : Addr → Bool) (f : Nat → Bool) (md : Nat)
+    (hf : ∀ (b : Addr) (s : Tree), sub R b = some s → filt b = f s.id)
+    (t : Tree) (a : Addr) (h : sub R a = some t) :
+    (preorderFrom R filt md a).map (idAt R) =
+      (Iter.preImpl ⟨f, fun _ => false, md⟩ (a.length + 1) t).map fun s => some s.id := by
+  simp only [preorderFrom, h]
+  exact preAt_ids R filt f md hf t a h
+
+example : (preorderFrom exNamed (fun _ => true) 2 []).map (idAt exNamed) = [some 0, some 1, some 3, some 4] := by
+  decide
 
 end C09
